@@ -27,12 +27,13 @@ func (e *Error) updateFromTokenIfNeeded(template *Template, t *Token) *Error {
 		e.Template = template
 	}
 
-	if e.Token == nil {
+	// The token is the one found at the reported position: an error that already
+	// carries a position (e.g. a lexer error of an included file) keeps it and is
+	// not given a token of another source.
+	if e.Token == nil && e.Line <= 0 {
 		e.Token = t
-		if e.Line <= 0 {
-			e.Line = t.Line
-			e.Column = t.Col
-		}
+		e.Line = t.Line
+		e.Column = t.Col
 	}
 
 	return e
